@@ -22,8 +22,9 @@ ALT = REPO != "/repo"
 SPEC = os.path.join(VERIF, "spec")
 HARNESS = os.path.join(VERIF, "harness")
 CACHE = os.path.join(VERIF, ".cache")
-EVIDENCE = os.path.join(VERIF, "evidence")
-REPLAYS = os.path.join(VERIF, "replays")
+# runs against a scratch tree (seeded-change testing) leave the evidence of the real tree alone
+EVIDENCE = os.path.join(VERIF, "evidence") if not ALT else os.path.join(CACHE, "alt-evidence")
+REPLAYS = os.path.join(VERIF, "replays") if not ALT else os.path.join(CACHE, "alt-replays")
 TARGET = os.path.join(HARNESS, "target" if not ALT else "target-alt")
 WV = os.path.join(TARGET, "release", "wv")
 WORKERS = int(os.environ.get("VERIF_WORKERS", "8"))
